@@ -36,7 +36,15 @@ logging.disable(logging.CRITICAL)   # the loop logs every failed send; not an ob
 SYNC, PING, RESYNC = 0, 1, 2
 TNAME = {0: 'SYNC', 1: 'PING', 2: 'RESYNC', None: 'nothing'}
 DEFAULT_CFG = (30, 60, 5, 5, 10)            # documented constructor defaults (period_ping, period_resync, attempt_stash, attempt_ping, attempt_resync)
-CFGS = [None, (20, 50, 3, 7, 11), (10, 10, 4, 2, 6), (12, 6, 3, 2, 4)]      # the last: full transfer after LESS silence than a ping (nobody forbids it)
+CFGS = [None, (20, 50, 3, 7, 11), (10, 10, 4, 2, 6), (12, 6, 3, 2, 4), (4.5, 9.5, 0.5, 1.5, 2.5)]      # the last: full transfer after LESS silence than a ping (nobody forbids it)
+def eff(cfg):
+    """what a configuration MEANS: clock readings are whole seconds, so `elapsed >= 2.5` is `elapsed >= 3` (the last
+    configuration of CFGS is in fractions of a second: nobody forbids it, and sub-second retry intervals mean "not twice in one
+    clock second")"""
+    import math
+    return tuple(math.ceil(x) for x in cfg)
+
+
 CFG_KEYS = ('period_ping', 'period_resync', 'attempt_stash', 'attempt_ping', 'attempt_resync')
 
 
@@ -488,14 +496,14 @@ def oracle_sequences(cfg, self_urn, flag0, logs, all_late):
 def run_case(case):
     """returns (op lines for the model, implementation's answer lines, [(sig, what)])."""
     cfgv = tuple(case['cfg']) if case['cfg'] is not None else None
-    cfg = cfgv if cfgv is not None else DEFAULT_CFG
+    cfg = eff(cfgv) if cfgv is not None else DEFAULT_CFG
     self_urn, urns, flag = case['self'], case['urns'], case['flag']
     rig = Rig(self_urn, urns, cfgv, flag)
     lines, impl, bad = [], [], []
     if cfgv is None:
         lines.append('newdef %s %d %s' % (self_urn, flag, ' '.join(urns)))
     else:
-        lines.append('new %s %s %d %s' % (self_urn, ' '.join(str(x) for x in cfgv), flag, ' '.join(urns)))
+        lines.append('new %s %s %d %s' % (self_urn, ' '.join(str(x) for x in cfg), flag, ' '.join(urns)))
     impl.append('ok')
     logs = {u: [] for u in urns if u != self_urn}
     flag0 = {u: bool(flag) for u in logs}
@@ -593,7 +601,7 @@ def grid_cases(ctx: Ctx):
     rng = ctx.rng
     NOW = 1000
     for cfgv in CFGS:
-        cfg = cfgv or DEFAULT_CFG
+        cfg = eff(cfgv or DEFAULT_CFG)
         cs, as_ = grid_values(cfg)
         for npeers in (1, 2):
             for c, a, qn, sti, fl, err in itertools.product(cs, as_, (0, 1, 2), (0, 1), (0, 1), (0, 1, 2)):
@@ -617,7 +625,7 @@ def mid_grid_cases(ctx: Ctx):
     backlog alone, PING, RESYNC, nothing) × send outcome × who the incoming message is from × its flags × 3 configurations."""
     NOW = 1000
     for cfgv in CFGS:
-        pp, pr, a_st, a_pi, a_re = cfgv or DEFAULT_CFG
+        pp, pr, a_st, a_pi, a_re = eff(cfgv or DEFAULT_CFG)
         states = {
             'sync-queue': (['set', 'b', NOW - 1, NOW - 1, 0, 0, [], [], []], 1),
             'sync-backlog': (['set', 'b', NOW - 1, NOW - a_st, 2, 1, ['s1'], [], []], 0),
@@ -642,7 +650,7 @@ def random_case(rng, idx):
     self_urn = 'a'
     cfgv = rng.choice(CFGS + [(rng.randint(2, 9), rng.randint(9, 15), rng.randint(0, 4), rng.randint(0, 4), rng.randint(0, 5)),
                              (rng.randint(6, 15), rng.randint(2, 9), rng.randint(0, 4), rng.randint(0, 4), rng.randint(0, 5))])
-    cfg = cfgv or DEFAULT_CFG
+    cfg = eff(cfgv or DEFAULT_CFG)
     flag = rng.randint(0, 1)
     weird = rng.random() < 0.15         # clocks may start early / negative / run backwards
     now = rng.choice((-3, 0, 1, cfg[1] - 1)) if weird else rng.choice((cfg[1], 1000, 10 ** 9))
@@ -788,7 +796,7 @@ SPEC = PropSpec(
     search=search,
     rule='single-pass grid: (seconds since contact) ∈ {0, period_ping−1/0/+1, period_resync−1/0/+1} × (seconds since attempt) ∈ '
          '{attempt_stash, attempt_ping, attempt_resync}−1/0/+1 × queue ∅/1/2 × backlog ∅/1 × flag on/off × send outcome ok/timeout/error '
-         '× 4 period configurations (constructor defaults, (20,50,3,7,11), (10,10,4,2,6), (12,6,3,2,4): resync period below the ping period) × 1 peer and 2 peers (second peer in a random '
+         '× 5 period configurations (constructor defaults, (20,50,3,7,11), (10,10,4,2,6), (12,6,3,2,4): resync period below the ping period, (4.5,9.5,0.5,1.5,2.5): fractions of a second) × 1 peer and 2 peers (second peer in a random '
          'threshold state, own device first/middle/last in the dict); plus seeded random multi-pass runs (400 quick / 20000 thorough, 8–40 '
          'steps, 1–3 peers, passes with clock advances by the configured periods ±1, queue insertions, incoming SYNC/PING/RESYNC with '
          'flags 0–3 through the real listener handler, 15 % with early/negative/backwards clocks; in 35 % of the passes 1–3 listener '
